@@ -124,21 +124,25 @@ class Pool:
 
 def _square_gram_matrix(shape, rng):
     """Generic small integer m x n matrix (n < m) with det(A^T A) a positive perfect square and a
-    non-diagonal Gram matrix (so index mistakes in A^T A are visible)."""
+    non-diagonal Gram matrix (so index mistakes in A^T A are visible).  The first n-1 columns are
+    drawn at random, the last column is searched exhaustively in a box."""
     import math
 
     m, n = shape
-    for _ in range(200000):
-        ent = [rng.randint(-6, 6) for _ in range(m * n)]
-        if len(set(ent)) < len(ent) - 1 or 0 in ent:
-            continue
-        A = [ent[i * n : (i + 1) * n] for i in range(m)]
-        G = [[sum(A[k][i] * A[k][j] for k in range(m)) for j in range(n)] for i in range(n)]
-        if n > 1 and all(G[i][j] == 0 for i in range(n) for j in range(n) if i != j):
-            continue
-        d = _idet(G)
-        if d > 0 and math.isqrt(d) ** 2 == d and math.isqrt(d) <= 150:
-            return {(i, j): Cx(A[i][j]) for i in range(m) for j in range(n)}
+    box = list(itertools.product(range(-5, 6), repeat=m))
+    for _ in range(2000):
+        cols = [[rng.choice([-6, -5, -4, -3, -2, -1, 1, 2, 3, 4, 5, 6]) for _ in range(m)] for _ in range(n - 1)]
+        rng.shuffle(box)
+        for last in box:
+            if 0 in last:
+                continue
+            A = [[cols[j][i] for j in range(n - 1)] + [last[i]] for i in range(m)]
+            G = [[sum(A[k][i] * A[k][j] for k in range(m)) for j in range(n)] for i in range(n)]
+            if n > 1 and all(G[i][j] == 0 for i in range(n) for j in range(n) if i != j):
+                continue
+            d = _idet(G)
+            if d > 0 and math.isqrt(d) ** 2 == d and math.isqrt(d) <= 150:
+                return {(i, j): Cx(A[i][j]) for i in range(m) for j in range(n)}
     raise RuntimeError("no square-Gram matrix found")
 
 
